@@ -45,6 +45,8 @@ fn line(d: &SolarDay, first: bool, _p: Option<&SolarDay>) -> String {
   let yt = if j % 3 == 0 && y >= 3 { year_terms_raw(y) } else { year_terms(y) };
   let td = catch(|| d.get_term_day());
   let (ti, tj) = td.as_ref().map(|t| (t.get_solar_term().get_index() as i64, catch(|| jdn(&t.get_solar_term().get_julian_day().get_solar_day())).unwrap_or(-1))).unwrap_or((-1, -1));
+  // the day the NEXT term starts on: the assigned term must be the latest one that has started
+  let tn = td.as_ref().and_then(|t| catch(|| jdn(&t.get_solar_term().next(1).get_julian_day().get_solar_day()))).unwrap_or(-1);
   // the Jie that opens the month
   let jie = td.as_ref().and_then(|t| catch(|| if t.get_solar_term().is_jie() { t.get_solar_term() } else { t.get_solar_term().next(-1) }));
   let (ji, jj) = jie.as_ref().map(|t| (t.get_index() as i64, catch(|| jdn(&t.get_julian_day().get_solar_day())).unwrap_or(-1))).unwrap_or((-1, -1));
@@ -61,7 +63,7 @@ fn line(d: &SolarDay, first: bool, _p: Option<&SolarDay>) -> String {
     };
     (n.get_hide_heaven_stem().get_heaven_stem().get_index() as i64, t, n.get_day_index() as i64)
   }).unwrap_or((-9, -9, -9));
-  Ev::new("d").b("s", first).i("y", y).i("m", m).i("d", dd).i("j", j).a("yt", &yt).i("ti", ti).i("tj", tj).i("ji", ji).i("jj", jj)
+  Ev::new("d").b("s", first).i("y", y).i("m", m).i("d", dd).i("j", j).a("yt", &yt).i("ti", ti).i("tj", tj).i("tn", tn).i("ji", ji).i("jj", jj)
     .a("nine", &[nine.0, nine.1]).a("dog", &[dog.0, dog.1]).a("plum", &[plum.0, plum.1]).a("ph", &[ph.0, ph.1]).a("hs", &[hs.0, hs.1, hs.2]).done()
 }
 
